@@ -287,7 +287,11 @@ def run(tier, seed):
             fl = "".join(r["flags"])
             chk.seen((label, "print" + fl))
             multi = len(rec["names"]) > 1
-            key = {"family": fam, "flags": fl, "multi": multi, "label": label if fam == "shipped" else "-"}
+            alltext = "\n".join(replay["files"].values())
+            feats = []
+            if re.search(r"\bOF\s+(SET|SEQUENCE)\s+OF\s+[A-Za-z][A-Za-z0-9 -]*?\s*\(", alltext):
+                feats.append("of-of-constrained")       # X OF Y OF <leaf with constraint>: see KF-C01-nested-OF-constraint-misparse
+            key = {"family": fam, "flags": fl, "multi": multi, "label": label if fam == "shipped" else "-", "features": "+".join(feats) or "-"}
             if r["rc1"] != 0:
                 chk.count("print_rejected_original_%s" % fl)
                 continue
